@@ -1029,7 +1029,7 @@ class FlagField(StdTemplate[_FlagArg], FieldBase):
         if self._has_flag:
             return self._flag.is_clear()
         else:
-            return self._val
+            return ~self._val
 
     async def __aenter__(self):
         await self._flag.__aenter__()
